@@ -65,6 +65,8 @@ def run(report, tier, seed):
         xn = 1 if quick else 6
         gens = [(2000 + i, modelgen.Gen(seed * 100129 + 2000 + i)) for i in range(xn)]
         xlabs = codeclab.prepare_labs(sc, ybin, gens, ndjson=False, sanitize=False)
+        # records with interior padding: a whole-value shortcut of one back end would leave the common plan
+        xlabs.append(codeclab.Lab(sc, ybin, 3001, modelgen.Gen(seed * 100129 + 3001), pkg=modelgen.padding_package(), ndjson=False).prepare())
         if not quick:
             xlabs.append(codeclab.Lab(sc, ybin, 3000, modelgen.Gen(seed * 100129 + 3000), pkg=modelgen.directed_package(), ndjson=False).prepare())
         for lab in xlabs:
